@@ -58,13 +58,17 @@ def match_known(pid, signature, known):
     return None
 
 
-def write_replay(pid, failure, config=None):
+def write_replay(pid, failure, mode="case"):
+    """mode 'case': the recorded case alone is re-executed; mode 'unit': the whole unit that produced the failure is
+    re-executed in a fresh process (for violations that depend on what the process did before the failing case)."""
     from mc.engine import h64
 
     d = os.path.join(HERE, "replays", pid)
     os.makedirs(d, exist_ok=True)
-    rec = dict(property=pid, **failure)
-    name = "%016x.json" % h64(json.dumps([failure["signature"], failure["case"]], sort_keys=True, default=repr))
+    rec = dict(property=pid, mode=mode, **failure)
+    if mode == "case":
+        rec.pop("unit", None)
+    name = "%016x%s.json" % (h64(json.dumps([failure["signature"], failure["case"]], sort_keys=True, default=repr)), "" if mode == "case" else "-unit")
     path = os.path.join(d, name)
     with open(path, "w") as f:
         json.dump(rec, f, indent=1, default=repr)
@@ -89,10 +93,17 @@ def do_replay(h, pid, path, quiet):
 
     bind_repo()
     rec = json.load(open(path))
-    if hasattr(h, "setup"):
-        h.setup(rec["case"].get("config") if isinstance(rec["case"], dict) else None)
     t = Tally()
-    h.replay(rec["case"], t)
+    if rec.get("mode") == "unit":
+        if hasattr(h, "setup"):
+            h.setup(rec["unit"]["config"])
+        for prior in rec["unit"].get("prior", []):  # what the worker had executed before, in order
+            h.run_unit(prior, Tally())
+        h.run_unit(rec["unit"]["payload"], t)
+    else:
+        if hasattr(h, "setup"):
+            h.setup(rec["case"].get("config") if isinstance(rec["case"], dict) else None)
+        h.replay(rec["case"], t)
     sigs = sorted(set(f["signature"] for f in t.failures))
     for f in t.failures:
         print(
@@ -158,6 +169,18 @@ def main():
         if rc1 == 1 and rc2 == 1 and o1 == o2:
             viol_lines.append(
                 f"VIOLATION property={pid} replay={path}   # {sig} x{total.fail_counts.get(sig)}: {f['clause']}: {f['detail'][:300]}"
+            )
+            continue
+        # not reproducible from the case alone: does it depend on the process history? replay the whole unit
+        upath = u1 = u2 = None
+        if "unit" in f:
+            upath = write_replay(pid, f, mode="unit")
+            rcu1, u1, outu1 = replay_subprocess(pid, upath)
+            rcu2, u2, outu2 = replay_subprocess(pid, upath)
+        if upath and rcu1 == 1 and rcu2 == 1 and u1 == u2:
+            viol_lines.append(
+                f"VIOLATION property={pid} replay={upath}   # {sig} x{total.fail_counts.get(sig)} [history-dependent: reproduces only "
+                f"after the preceding cases of its unit, in the same process]: {f['clause']}: {f['detail'][:300]}"
             )
         else:
             errors.append(
